@@ -61,7 +61,6 @@ Variables (doms : list nat) (g g' : fhrg) (cs : list call).
 Hypothesis SP : fz_spec g g' cs.
 Hypothesis WF : wf_grammar (to_sp_grammar doms g) = true.
 Hypothesis IDS : ids_are_positions g.
-Hypothesis POS : doms_pos doms g.
 Let G := to_sp_grammar doms g.
 Let G' := to_sp_grammar doms g'.
 
@@ -136,7 +135,7 @@ Lemma wf_rules doms g : wf_grammar (to_sp_grammar doms g) = true -> ids_are_posi
 Proof. intros W I r Hr. apply (wf_grammar_wf_fhrg doms g W I r Hr). Qed.
 
 Theorem sum_product_nonrec_hrg doms m g orc g' rank :
-  wf_grammar (to_sp_grammar doms g) = true -> ids_are_positions g -> doms_pos doms g ->
+  wf_grammar (to_sp_grammar doms g) = true -> ids_are_positions g ->
   orc_ok g (orc m) -> factorize_hrg_model m g orc = Ok g' ->
   ranked (to_sp_grammar doms g) rank ->
   (exists rank', ranked (to_sp_grammar doms g') rank')
@@ -146,12 +145,12 @@ Theorem sum_product_nonrec_hrg doms m g orc g' rank :
          Zk o (to_sp_grammar doms g') w k (lab_idx (fh_elabels g') l) xi
          = Zk o (to_sp_grammar doms g) w k0 (lab_idx (fh_elabels g) l) xi.
 Proof.
-  intros W I P O H Rk. destruct (factorize_hrg_spec g (orc m) g' (wf_rules doms g W I) O H) as (cs & SP).
-  exact (spec_nonrec doms g g' cs SP W I P rank Rk).
+  intros W I O H Rk. destruct (factorize_hrg_spec g (orc m) g' (wf_rules doms g W I) O H) as (cs & SP).
+  exact (spec_nonrec doms g g' cs SP W I rank Rk).
 Qed.
 
 Theorem sum_product_nonrec_fgg doms m f orc f' rank :
-  wf_grammar (to_sp_grammar doms (ff_hrg f)) = true -> ids_are_positions (ff_hrg f) -> doms_pos doms (ff_hrg f) ->
+  wf_grammar (to_sp_grammar doms (ff_hrg f)) = true -> ids_are_positions (ff_hrg f) ->
   orc_ok (ff_hrg f) (orc m) -> factorize_fgg_model m f orc = Ok f' ->
   ranked (to_sp_grammar doms (ff_hrg f)) rank ->
   (exists rank', ranked (to_sp_grammar doms (ff_hrg f')) rank')
@@ -162,21 +161,21 @@ Theorem sum_product_nonrec_fgg doms m f orc f' rank :
          Zk o (to_sp_grammar doms (ff_hrg f')) w k (lab_idx (fh_elabels (ff_hrg f')) l) xi
          = Zk o (to_sp_grammar doms (ff_hrg f)) w k0 (lab_idx (fh_elabels (ff_hrg f)) l) xi.
 Proof.
-  intros W I P O H Rk. destruct (factorize_fgg_spec m f orc f' (wf_rules doms _ W I) O H) as (cs & SP).
-  exact (spec_nonrec doms _ _ cs SP W I P rank Rk).
+  intros W I O H Rk. destruct (factorize_fgg_spec m f orc f' (wf_rules doms _ W I) O H) as (cs & SP).
+  exact (spec_nonrec doms _ _ cs SP W I rank Rk).
 Qed.
 
 (** the start symbol: what the check function [fz_sp_check] compares *)
 Corollary sum_product_nonrec_start doms m g orc g' rank :
-  wf_grammar (to_sp_grammar doms g) = true -> ids_are_positions g -> doms_pos doms g ->
+  wf_grammar (to_sp_grammar doms g) = true -> ids_are_positions g ->
   orc_ok g (orc m) -> factorize_hrg_model m g orc = Ok g' ->
   ranked (to_sp_grammar doms g) rank ->
   forall (R : Type) (o : sr_ops R), sr_ring o -> forall (w : env (R:=R)) xi,
     Zk o (to_sp_grammar doms g') w (length (nonterminals (to_sp_grammar doms g'))) (g_start (to_sp_grammar doms g')) xi
     = Zk o (to_sp_grammar doms g) w (length (nonterminals (to_sp_grammar doms g))) (g_start (to_sp_grammar doms g)) xi.
 Proof.
-  intros W I P O H Rk R o Hr w xi.
-  destruct (sum_product_nonrec_hrg doms m g orc g' rank W I P O H Rk) as [_ E].
+  intros W I O H Rk R o Hr w xi.
+  destruct (sum_product_nonrec_hrg doms m g orc g' rank W I O H Rk) as [_ E].
   assert (S : fh_start g' = fh_start g) by (apply (factorize_hrg_keeps g (orc m) g' H)).
   change (g_start (to_sp_grammar doms g')) with (lab_idx (fh_elabels g') (fh_start g')).
   change (g_start (to_sp_grammar doms g)) with (lab_idx (fh_elabels g) (fh_start g)).
@@ -191,7 +190,7 @@ Proof.
 Qed.
 
 Theorem sum_product_recursive_hrg doms m g orc g' :
-  wf_grammar (to_sp_grammar doms g) = true -> ids_are_positions g -> doms_pos doms g ->
+  wf_grammar (to_sp_grammar doms g) = true -> ids_are_positions g ->
   orc_ok g (orc m) -> factorize_hrg_model m g orc = Ok g' ->
   exists c, forall (R : Type) (o : sr_ops R), sr_ring o -> sr_ordered o -> forall (w : env (R:=R)) l xi,
     In l (fh_elabels g) ->
@@ -205,12 +204,12 @@ Theorem sum_product_recursive_hrg doms m g orc g' :
           ((exists j, le o lo (Zk o G w j X xi)) /\ (forall k, le o (Zk o G w k X xi) hi))
           <-> ((exists j, le o lo (Zk o G' w j X' xi)) /\ (forall k, le o (Zk o G' w k X' xi) hi))).
 Proof.
-  intros W I P O H. destruct (factorize_hrg_spec g (orc m) g' (wf_rules doms g W I) O H) as (cs & SP).
-  exact (spec_recursive doms g g' cs SP W I P).
+  intros W I O H. destruct (factorize_hrg_spec g (orc m) g' (wf_rules doms g W I) O H) as (cs & SP).
+  exact (spec_recursive doms g g' cs SP W I).
 Qed.
 
 Theorem sum_product_recursive_fgg doms m f orc f' :
-  wf_grammar (to_sp_grammar doms (ff_hrg f)) = true -> ids_are_positions (ff_hrg f) -> doms_pos doms (ff_hrg f) ->
+  wf_grammar (to_sp_grammar doms (ff_hrg f)) = true -> ids_are_positions (ff_hrg f) ->
   orc_ok (ff_hrg f) (orc m) -> factorize_fgg_model m f orc = Ok f' ->
   exists c, forall (R : Type) (o : sr_ops R), sr_ring o -> sr_ordered o -> forall (w : env (R:=R)) l xi,
     In l (fh_elabels (ff_hrg f)) ->
@@ -224,13 +223,13 @@ Theorem sum_product_recursive_fgg doms m f orc f' :
           ((exists j, le o lo (Zk o G w j X xi)) /\ (forall k, le o (Zk o G w k X xi) hi))
           <-> ((exists j, le o lo (Zk o G' w j X' xi)) /\ (forall k, le o (Zk o G' w k X' xi) hi))).
 Proof.
-  intros W I P O H. destruct (factorize_fgg_spec m f orc f' (wf_rules doms _ W I) O H) as (cs & SP).
-  exact (spec_recursive doms _ _ cs SP W I P).
+  intros W I O H. destruct (factorize_fgg_spec m f orc f' (wf_rules doms _ W I) O H) as (cs & SP).
+  exact (spec_recursive doms _ _ cs SP W I).
 Qed.
 
 (** solutions and pre-fixed points, recursive grammars included *)
 Theorem sum_product_fixpoints_hrg doms m g orc g' :
-  wf_grammar (to_sp_grammar doms g) = true -> ids_are_positions g -> doms_pos doms g ->
+  wf_grammar (to_sp_grammar doms g) = true -> ids_are_positions g ->
   orc_ok g (orc m) -> factorize_hrg_model m g orc = Ok g' ->
   let G := to_sp_grammar doms g in let G' := to_sp_grammar doms g' in
   (forall (R : Type) (o : sr_ops R), sr_ring o -> forall w x : env (R:=R), fixpoint o G' w x -> fixpoint o G w x)
@@ -241,8 +240,8 @@ Theorem sum_product_fixpoints_hrg doms m g orc g' :
        /\ (forall u' : env (R:=R), SP_mono.env_le o (step o G' w u') u' ->
              forall X xi, is_term G X = false -> le o (step o G w u' X xi) (u' X xi)).
 Proof.
-  intros W I P O H. destruct (factorize_hrg_spec g (orc m) g' (wf_rules doms g W I) O H) as (cs & SP).
+  intros W I O H. destruct (factorize_hrg_spec g (orc m) g' (wf_rules doms g W I) O H) as (cs & SP).
   split.
-  - intros R o Hr w x. exact (spec_fixpoint doms g g' cs SP W I P R o Hr w x).
-  - intros R o Hr Ho w. exact (spec_prefix doms g g' cs SP W I P R o Hr Ho w).
+  - intros R o Hr w x. exact (spec_fixpoint doms g g' cs SP W I R o Hr w x).
+  - intros R o Hr Ho w. exact (spec_prefix doms g g' cs SP W I R o Hr Ho w).
 Qed.
